@@ -274,6 +274,46 @@ func buildSigned(r *core.Rand, kind string, ht txscript.SigHashType, nIn, nOut, 
 		}
 		tx.TxIn[idx].Witness = w
 
+	case "p2sh-p2wpkh":
+		// nested: scriptPubKey = P2SH(program), scriptSig = push(program), witness signed over the program
+		res.form = "wit"
+		k := newKey(r)
+		a, err := address.NewAddressWitnessPubKeyHash(address.Hash160(k.pub.SerializeCompressed()), params)
+		must(err)
+		prog, err := txscript.PayToAddrScript(a)
+		must(err)
+		sa, err := address.NewAddressScriptHash(prog, params)
+		must(err)
+		pkScript, err := txscript.PayToAddrScript(sa)
+		must(err)
+		spent[idx].PkScript = pkScript
+		tx.TxIn[idx].SignatureScript, _ = txscript.NewScriptBuilder().AddData(prog).Script()
+		sh := txscript.NewTxSigHashes(tx, mkFetcher(tx, spent))
+		w, err := txscript.WitnessSignature(tx, sh, idx, amt, prog, ht, k.priv, true)
+		if err != nil {
+			res.err = true
+			return res
+		}
+		tx.TxIn[idx].Witness = w
+
+	case "p2tr-key-tree":
+		// key path of an output that also commits to a script tree: RawTxInTaprootSignature with the root
+		res.form = "tap"
+		k := newKey(r)
+		leaf := txscript.NewBaseTapLeaf(append([]byte{0x51}, r.Bytes(3)...))
+		tree := txscript.AssembleTaprootScriptTree(leaf, txscript.NewBaseTapLeaf([]byte{0x52}))
+		root := tree.RootNode.TapHash()
+		pkScript, err := txscript.PayToTaprootScript(txscript.ComputeTaprootOutputKey(k.pub, root[:]))
+		must(err)
+		spent[idx].PkScript = pkScript
+		sh := txscript.NewTxSigHashes(tx, mkFetcher(tx, spent))
+		sig, err := txscript.RawTxInTaprootSignature(tx, sh, idx, amt, pkScript, root[:], ht, k.priv)
+		if err != nil {
+			res.err = true
+			return res
+		}
+		tx.TxIn[idx].Witness = wire.TxWitness{sig}
+
 	case "p2wsh", "p2wsh-codesep", "p2wsh-multisig":
 		res.form = "wit"
 		k1, k2 := newKey(r), newKey(r)
@@ -372,7 +412,7 @@ func cloneSpent(sp []*wire.TxOut) []*wire.TxOut {
 }
 
 var mutKinds = []string{"none", "ver", "lock", "seq", "seq-own", "prevhash", "previdx", "prev-own", "scriptsig", "witness",
-	"outval", "outscript", "out-own", "addout", "delout", "addin", "delin", "amt", "amt-own", "spentscript"}
+	"outval", "outscript", "out-own", "addout", "delout", "addin", "delin", "amt", "amt-own", "spentscript", "annex-own"}
 
 // apply a single-field mutation; returns false if it does not apply to this shape
 func mutate(r *core.Rand, kind string, tx *wire.MsgTx, spent []*wire.TxOut, idx int) bool {
@@ -452,6 +492,12 @@ func mutate(r *core.Rand, kind string, tx *wire.MsgTx, spent []*wire.TxOut, idx 
 			return false
 		}
 		tx.TxOut = tx.TxOut[:len(tx.TxOut)-1]
+	case "annex-own": // taproot only: an annex appended to the signed input's own witness is committed
+		if len(tx.TxIn[idx].Witness) == 0 || len(spent[idx].PkScript) != 34 || spent[idx].PkScript[0] != 0x51 {
+			return false
+		}
+		tx.TxIn[idx].Witness = append(append(wire.TxWitness(nil), tx.TxIn[idx].Witness...),
+			append([]byte{0x50}, r.Bytes(r.Intn(4))...))
 	case "addin", "delin": // change the length of the spent list: done by the caller
 		return false
 	case "amt":
@@ -473,13 +519,13 @@ func mutate(r *core.Rand, kind string, tx *wire.MsgTx, spent []*wire.TxOut, idx 
 }
 
 var signKinds = []string{"p2pk", "p2pkh", "p2pkh-u", "multisig", "p2sh-p2pkh", "p2sh-multisig", "legacy-codesep",
-	"multisig-merge", "p2sh-multisig-merge",
+	"multisig-merge", "p2sh-multisig-merge", "p2sh-p2wpkh", "p2tr-key-tree",
 	"p2wpkh", "p2wsh", "p2wsh-codesep", "p2wsh-multisig", "p2tr-key", "p2tr-script"}
 
 func genSign(g *core.Gen) {
 	r := g.R
 	definedHT := []txscript.SigHashType{1, 2, 3, 0x81, 0x82, 0x83}
-	for k := 0; k < g.N(390, 3900); k++ {
+	for k := 0; k < g.N(442, 4420); k++ {
 		kind := signKinds[k%len(signKinds)]
 		nIn, nOut := 1+r.Intn(3), r.Intn(4)
 		idx := r.Intn(nIn)
